@@ -68,12 +68,12 @@ def shards(tier, seed):
 
 
 # ------------------------------------------------------------------ pipeline
-def pipeline(coords, species, M, site_frac, labels, want_volume=True, li_cols=(0, 1), radius=None):
+def pipeline(coords, species, M, site_frac, labels, want_volume=True, li_cols=(0, 1), radius=None, site_order=None):
     """Run the real analysis pipeline; returns a dict of observables in the representation's own labelling."""
-    out = {}
+    out = {'_site_order': site_order}
     traj = concretise.make_trajectory(coords, species, M, time_step=2e-15, temperature=500.0)
     sites = concretise.make_sites(site_frac, labels, M)
-    tr = traj.transitions_between_sites(sites, 'Li', site_radius=R_SITE if radius is None else dict(radius))
+    tr = traj.transitions_between_sites(sites, 'Li', site_radius=None if radius == 'auto' else (R_SITE if radius is None else dict(radius)))
     out['states'] = np.asarray(tr.states)
     out['inner'] = np.asarray(tr.inner_states)
     out['events'] = set(impl.event_rows(tr.events))
@@ -101,6 +101,26 @@ def pipeline(coords, species, M, site_frac, labels, want_volume=True, li_cols=(0
             k = (st if not st.startswith('~>') else '~>', x.label)
             merged[k] = merged.get(k, 0) + np.asarray(x.y)[1:]
     out['rdf_state'] = merged
+    # collective-jump detection between two jumps that share no site (an extra fourth site), several cut-offs
+    try:
+        import types
+
+        import pandas as pd
+        from pymatgen.core import Lattice as _Lattice
+
+        from gemdat.collective import Collective
+
+        extra = np.asarray(site_frac)[0] + np.array([0.5, 0.45, 0.55])
+        s4 = concretise.make_sites(np.vstack([np.asarray(site_frac), extra[None]]), list(labels) + ['A'], M)
+        inv = [list(labels_index).index(k) for k in range(3)] if (labels_index := out.get('_site_order')) else [0, 1, 2]
+        df = pd.DataFrame(np.array([[0, inv[0], inv[1], 0, 1], [1, inv[2], 3, 1, 2]]), columns=['atom index', 'start site', 'destination site', 'start time', 'stop time'])
+        cc = []
+        for md in (1.0, 2.0, 3.0, 4.0, 5.0):
+            c4 = Collective(jumps=types.SimpleNamespace(data=df), sites=s4, lattice=_Lattice(np.asarray(M)), max_steps=5, max_dist=md)
+            cc.append(len(c4.collective))
+        out['collective4'] = tuple(cc)
+    except Exception as e:  # noqa: BLE001
+        out['collective4'] = ('raise', type(e).__name__)
     m = traj.metrics()
     out['metrics'] = (float(m.tracer_diffusivity(dimensions=3)), float(m.particle_density()), float(m.vibration_amplitude()), float(m.attempt_frequency()[0]))
     out['speed_tie'] = bool(np.any(np.abs(np.asarray(m.speed())[:, 1:]) < 1e-9))
@@ -228,6 +248,8 @@ def compare(base, got, spec, dims):
         v.append(('count-matrices-change', ''))
     if ne('D_jump') and not np.isclose(base.get('D_jump', np.nan), got.get('D_jump', np.nan), rtol=1e-7, atol=0):
         v.append(('jump-diffusivity-changes', f'{base.get("D_jump")} vs {got.get("D_jump")}'))
+    if base.get('collective4') != got.get('collective4'):
+        v.append(('collective-pairs-between-disjoint-site-pairs-change', f'{base.get("collective4")} vs {got.get("collective4")}'))
     if base.get('collective') != got.get('collective'):
         v.append(('collective-jump-counts-change', f'{base.get("collective")} vs {got.get("collective")}'))
     if base['rdf_pair'].shape != got['rdf_pair'].shape or not np.allclose(base['rdf_pair'], got['rdf_pair'], rtol=1e-7, atol=1e-9):
@@ -304,8 +326,13 @@ def evaluate(k, trace, tier, seed, res: Result, only=None):
             return
     try:
         rad = None if k % 2 == 0 else {'A': R_SITE, 'B': R_SITE}  # float radius / per-label radii (labels interleaved: A,B,A)
+        if k % 4 == 3:
+            rad = 'auto'  # automatic radius (depends on the smallest site separation, whichever sites form it)
         base = pipeline(coords, SYMS, M, site_frac, LABELS, radius=rad)
     except Exception as e:  # noqa: BLE001
+        if rad == 'auto' and isinstance(e, ValueError) and 'at least one array' in str(e):
+            res.stats['auto_radius_scenarios_without_any_state_change'] += 1  # outside C03's "at least one change"
+            return
         res.violation(f'base-pipeline-raises-{type(e).__name__}', case0, f'lattice {lname}: {e}')
         return
     o, _ = hop.state_arrays(trace)
@@ -326,7 +353,7 @@ def evaluate(k, trace, tier, seed, res: Result, only=None):
         old_index = spec.get('atoms', [0, 1, 2, 3])
         li_new = [old_index[i] for i, x in enumerate(sp2) if x == 'Li']
         try:
-            got = pipeline(c2, sp2, M2, sf2, lab2, li_cols=(li_new.index(0), li_new.index(1)), radius=rad)
+            got = pipeline(c2, sp2, M2, sf2, lab2, li_cols=(li_new.index(0), li_new.index(1)), radius=rad, site_order=spec.get('sites'))
         except Exception as e:  # noqa: BLE001
             res.violation(f'transformed-pipeline-raises-{type(e).__name__}', case, f'{name} lattice {lname}: {e}')
             continue
